@@ -301,6 +301,12 @@ theorem js_tree_tokens_safe : type_of% @Verif.Proofs.C09Js.js_tree_tokens_safe :
 /-- **JS, grammar trees**: hence what the writer produces for it is read back as exactly that terminal string -/
 theorem js_tree_relex : type_of% @Verif.Proofs.C09Js.js_tree_relex := @Verif.Proofs.C09Js.js_tree_relex
 
+/-- **JS, optional chains**: the grammar trees include `E.opt` (`a?.b.c(d)`); `?.` directly before a digit is not the
+    `?.` punctuator (`a?.5:1` is `a ? .5 : 1`, `js_qdot_digit_counterexample`), the writer contract excludes that pair
+    and the terminal string of a tree never contains it -/
+theorem js_opt_chain_no_digit_after_qdot : type_of% @Verif.Proofs.C09Js.js_opt_chain_no_digit_after_qdot :=
+  @Verif.Proofs.C09Js.js_opt_chain_no_digit_after_qdot
+
 /-- **JS, expression printer**: the output of the printer model `printT` (C01) is token-separated and derives the
     printed tree in the independent grammar: valid, and re-lexed to the intended tokens -/
 theorem js_expr_relex : type_of% @Verif.Proofs.C09Js.js_expr_relex := @Verif.Proofs.C09Js.js_expr_relex
